@@ -244,5 +244,14 @@ let () =
     match String.split_on_char ' ' line with
     | "L1" :: id :: _ -> run_l1 id (kv line)
     | "L2" :: id :: _ -> (try run_l2 id line with Failure m -> Printf.printf "C %s\nX model-driver-failure %s\n.\n" id m)
+    | "TD" :: id :: _ ->
+        let ops = parse_ops (get (kv line) "ops" "E") in
+        let pieces = List.filter_map (function Write b -> Some b | End -> None) ops in
+        let calls = utf8_node_calls pieces in
+        Printf.printf "C %s\nS e0\n" id;
+        List.iteri (fun k cs ->
+          List.iter (fun c -> Printf.printf "E T %d..%d Data %s %b\n" (int_of_nat c.tc_a) (int_of_nat c.tc_b) (hex c.tc_text) c.tc_last) cs;
+          Printf.printf "R %d ok\n" k) calls;
+        print_endline "."
     | _ -> ()
   done with End_of_file -> ()
